@@ -121,8 +121,11 @@ pub fn price_boundaries_of_last_block(
     let upper_limit = last_price
         .checked_mul(config.decimals + config.fluctuation_limit_ratio)?
         .checked_div(config.decimals)?;
+    // the lower boundary is rounded up: rounded down, the band is up to one price unit wider than
+    // the configured ratio (a sizeable fraction of the price on a low-priced market)
     let lower_limit = last_price
         .checked_mul(config.decimals - config.fluctuation_limit_ratio)?
+        .checked_add(config.decimals - Uint128::new(1u128))?
         .checked_div(config.decimals)?;
 
     Ok((upper_limit, lower_limit))
